@@ -912,6 +912,10 @@ class Interp:
                 return (x and y) if op == "&" else (x or y)
             if isinstance(x, int) and isinstance(y, int):
                 return (x & y) if op == "&" else (x | y)
+        if op in ("^", "&", "|", "<<", ">>"):
+            x, y = self.rv(a), self.rv(b)
+            if is_abstract(x) or is_abstract(y):
+                return self.world.sym_binop(op, x, y)
         raise AnalysisBroken("interp: binary operator %s at %s" % (op, fr.fn.loc(e)))
 
     def e_construct(self, e, fr):
